@@ -1,13 +1,19 @@
 """C05 - session events (DESIGN.md 5/C05)."""
 from . import sockrules as S
+from . import srvrules as R
 
-META = {
-    'level': 'other',
-    'explanation': 'see DESIGN.md 5/C05',
-    'trusted_base': [], 'not_decided': [], 'assumptions': [],
-}
+from .meta import meta
+META = meta('C05', level='other', extra_tb=None)
 
 
 def check(A):
     for fl in S.FLAVOURS:
         S.close_once(A, fl, 'C05')
+        S.post_request(A, fl, 'C05')
+        S.ws_read_loop(A, fl, 'C05', closed_rule='C05.none-after')
+        S.get_request_rules(A, fl, 'C05')
+        S.ping_timeout_rules(A, fl, 'C05')
+        R.trigger_event_rules(A, fl, 'C05')
+        R.handle_connect_rules(A, fl, 'C05')
+        R.disconnect_rules(A, fl, 'C05')
+        R.response_rules(A, fl, 'C05', parts=('errors',))
